@@ -312,6 +312,31 @@ func runRate(sc Scenario, tr *Trace, seed int64) {
 					do(rstep{src: src, n: n, isretry: true})
 				}
 			}
+		case "idlex": // stay idle for EXACTLY burst x (period / average) of the slowest-filling rate (not a whole number of ticks
+			// when the average does not divide the period), then ask for the smallest burst
+			src := str(st, "src")
+			var maxD time.Duration
+			minBurst := 1 << 30
+			for _, r := range rc.rates {
+				d := time.Duration(int64(num(r, "b")) * int64(time.Duration(num(r, "p"))*rc.tick) / int64(num(r, "a")))
+				if d > maxD {
+					maxD = d
+				}
+				if num(r, "b") < minBurst {
+					minBurst = num(r, "b")
+				}
+			}
+			whole, rest := int(maxD/rc.tick), maxD%rc.tick
+			if whole > 0 {
+				do(rstep{adv: whole})
+			}
+			if rest > 0 {
+				do(rstep{sub: rest})
+			}
+			do(rstep{src: src, n: minBurst, isidle: true})
+			if rest > 0 {
+				do(rstep{adv: 1, less: rest})
+			}
 		case "idle": // stay idle for burst*timePerToken of every rate, then ask for the smallest burst
 			src := str(st, "src")
 			maxIdle, minBurst := 0, 1<<30
@@ -354,7 +379,8 @@ func runRate(sc Scenario, tr *Trace, seed int64) {
 	if boolOr(sc.Cfg, "nofl", false) {
 		nofl = replayFlat(rc, flat, func(i int, st rstep) bool { return !(st.flood && outs[i].out != "ok") }, nil)
 	}
-	cfg := M{"tps": rc.tps, "cap": rc.cap, "level": rc.level, "qualified": boolOr(sc.Cfg, "qualified", true)}
+	cfg := M{"tps": rc.tps, "cap": rc.cap, "level": rc.level, "qualified": boolOr(sc.Cfg, "qualified", true),
+		"approx": boolOr(sc.Cfg, "approx", false)}
 	var rates []any
 	for _, r := range rc.rates {
 		rates = append(rates, M{"p": num(r, "p"), "a": num(r, "a"), "b": num(r, "b")})
